@@ -273,6 +273,26 @@ fn run(case: &Value) -> Value {
                 None => json!({ "ok": null }),
             }
         }
+        "unit_seq" => {
+            // what eval::unit does with one WORD: repeat the generated parser on the remainder
+            let mut rest = case["word"].as_str().unwrap_or("");
+            let mut out = Vec::new();
+            let mut n = 0;
+            while !rest.is_empty() {
+                match anything::verif::unit_word(rest) {
+                    Some((r, prefix, unit)) => {
+                        let c: anything::Compound = std::iter::FromIterator::from_iter([(unit, (1, prefix))]);
+                        out.push(json!({ "prefix": prefix, "unit": unit_json(&c) }));
+                        if r.len() >= rest.len() { return json!({ "err": "parser made no progress", "ok": out }); }
+                        rest = r;
+                    }
+                    None => return json!({ "ok": null, "rejected_at": rest }),
+                }
+                n += 1;
+                if n > 64 { break; }
+            }
+            json!({ "ok": out })
+        }
         "compound" => {
             let text = case["text"].as_str().unwrap_or("");
             match str::parse::<anything::Compound>(text) {
